@@ -19,15 +19,15 @@ mv $WT/../seed_c_$P.hold $SD
 echo "$P c: demo_on_clean=$r_clean (want 0) demo_with_patch=$r_demo (want !=0) suite_with_patch=$r_suite (want 0) test=$TN"
 if [ "$r_clean" = 0 ] && [ "$r_demo" != 0 ] && [ "$r_suite" = 0 ]; then
   mkdir -p $OUT && cp $TMP/patch.diff $TMP/demo_test.go $TMP/notes.md $OUT/
-  python3 - "$P" "$TN" <<'PY'
+  python3 - "$P" "$TN" "$SFX" <<'PY'
 import json,sys
-P,TN=sys.argv[1:3]
-meta={"id":f"{P}"+SFX,"breaks_property":P,"demo_test":TN,"round":2,
+P,TN,SFX=sys.argv[1:4]
+meta={"id":P+SFX,"breaks_property":P,"demo_test":TN,"round":(2 if SFX=="c" else 3),
  "needs_to_manifest":"see notes.md (written by the sub-agent that produced the change)",
  "confirmed_by":"tools/import_seed2.sh in the sub-agent's scratch worktree of the repaired tree: demo passes on the unchanged tree; with the patch the whole suite passes and the demo fails",
- "note":"second-round seed, produced AFTER the contracts were written and not used to shape them",
+ "note":"later-round seed, produced AFTER the contracts were written and not used to shape them",
  "detected_by":[]}
-json.dump(meta,open(f'/verif/seeded/{P}" + SFX + "/meta.json','w'),indent=1)
+json.dump(meta,open('/verif/seeded/%s%s/meta.json'%(P,SFX),'w'),indent=1)
 PY
   echo "$P c: KEPT"
 else
